@@ -444,6 +444,11 @@ pub fn gen_rule(d: &Data, r: &mut Rng) -> String {
         return r
             .pick(
                 &[
+                    // multi-rules whose sub-rules feed each other: the order of application matters
+                    "a, e > e, i",
+                    "p, b > b, v",
+                    "i, u > e, i / _#",
+                    "t, d > d, ð / V_V",
                     "t > d / [+stress] _",
                     "C > [+voice] / V:[+stress]_",
                     "% > [tone: 35] / %:[tone: 51] _",
